@@ -36,7 +36,15 @@ PRIMES = [2, 3, 5, 7, 11, 13, 17]
 
 CONFIGS = ["numeric", "numeric_cstr", "named", "named_cstr", "arrhenius", "arrhenius_unique", "arrhenius_param", "ramped_temp",
            "create_named", "create_arrhenius", "create_named_cstr", "create_named_symbols", "reassign", "subst_vs_constants",
-           "shared_expr", "unique_zero", "unique_zero_incl", "create_param_expr", "registry_named"]
+           "shared_expr", "unique_zero", "unique_zero_incl", "create_param_expr", "registry_named", "eyring"]
+
+# boundary structures: a reactant listed with coefficient 0, a zero-order source term (empty reactant side), a species only on the product side
+BOUNDARY = [
+    [({"A": 1, "B": 0}, {"C": 1}, {}, {}), ({"B": 1, "C": 1}, {"A": 1}, {}, {})],
+    [({}, {"A": 1}, {}, {}), ({"A": 1}, {"B": 1}, {}, {}), ({"A": 1, "B": 1}, {"C": 2}, {}, {})],
+    [({"A": 2, "B": 0, "C": 0}, {"B": 1, "C": 1}, {}, {})],
+]
+BOUNDARY_CONFIGS = ["named", "arrhenius", "arrhenius_unique", "create_named", "eyring", "unique_zero_incl"]
 
 
 def gen_systems(tier, seed):
@@ -199,6 +207,14 @@ def build_case(rxs, config):
         expected_params = {"k%d" % i for i in range(nr)}
         kw["include_params"] = False
         kw["unit_registry"] = sym_registry()[0]
+    elif config == "eyring":
+        # Eyring rate with a standard state that is not numerically one: k = c0*T*exp(-c1/T) * conc0**(1 - order), also for order 0
+        from chempy.kinetics.rates import Eyring
+        params = [MassAction(Eyring([int(a), int(e), 2])) for a, e in zip(A, E)]   # a power of two: 2**(1-order) is exact in floats
+        orders = [sum(rx[0].values()) for rx in rxs]
+        kfun = lambda P: [int(a) * P["temperature"] * sp.exp(-sp.Integer(int(e)) / P["temperature"]) * sp.Integer(2) ** (1 - o)  # noqa
+                          for a, e, o in zip(A, E, orders)]
+        expected_params = {"temperature"}
     elif config == "arrhenius_param":
         params = [ArrheniusParam(int(a), int(e)) for a, e in zip(A, E)]
         from chempy.kinetics.arrhenius import _get_R
@@ -454,6 +470,10 @@ def task_twin():
                 sample={"twin": "dropped reaction / negated net stoichiometry are detected"})
 
 
+def _tasks_boundary():
+    return [dict(id="C04.boundary", fn="task_systems", kwargs=dict(systems=BOUNDARY, configs=BOUNDARY_CONFIGS), timeout=1200)]
+
+
 def tasks(tier, seed):
     exhaustive, seeded = gen_systems(tier, seed)
     ts = [dict(id="C04.twin", fn="task_twin", kwargs={}, timeout=300)]
@@ -467,4 +487,4 @@ def tasks(tier, seed):
         ch = seeded[i::n]
         if ch:
             ts.append(dict(id="C04.seeded.%02d" % i, fn="task_systems", kwargs=dict(systems=ch, configs=CONFIGS), timeout=2400))
-    return ts
+    return ts + _tasks_boundary()
